@@ -49,23 +49,25 @@ func TestDriverQuery(t *testing.T) {
 			sr := r.Fork(uint64(1000 + i))
 			var o stepOut
 			switch k := sr.Intn(100); {
-			case k < 18:
+			case k < 16:
 				o = w.stepEthCall(sr)
-			case k < 40:
+			case k < 36:
 				o = w.stepEstimate(sr)
-			case k < 50:
+			case k < 45:
 				o = w.stepTrace(sr)
-			case k < 58:
+			case k < 52:
 				o = w.stepReplay(sr)
-			case k < 66:
+			case k < 59:
+				o = w.stepSameSender(sr)
+			case k < 67:
 				o = w.stepCheckTx(sr)
 			case k < 74:
 				o = w.stepSimulate(sr)
-			case k < 81:
+			case k < 80:
 				o = w.stepGrpc(sr)
-			case k < 84:
+			case k < 83:
 				o = w.stepGasCap(sr)
-			case k < 92:
+			case k < 90:
 				o = w.stepHistory(sr)
 			default:
 				o = w.stepBlock(sr)
